@@ -41,7 +41,6 @@ var parseEntries = []string{
 	"parsePacketHeader", "parsePacketAdaptationField",
 	"parsePESOptionalHeader", "parsePESHeader", "parsePESData",
 	"parsePacket",
-	"parsePSISectionHeader",
 }
 
 // error values with a tag of their own in Base/Iter.v
